@@ -17,6 +17,16 @@ Days(y0, m, d) == LET y == IF m <= 2 THEN y0 - 1 ELSE y0
                       doe == yoe * 365 + yoe \div 4 - yoe \div 100 + doy
                   IN era * 146097 + doe - 719468 - 10957
 Dow(n) == ((n + 5) % 7) + 1        \* ISO weekday 1 = Monday ... 7 = Sunday
+\* the civil date <<y, m, d>> of day n (inverse of Days)
+Civil(n) == LET z == n + 10957 + 719468
+               era == z \div 146097
+               doe == z - era * 146097
+               yoe == (doe - doe \div 1460 + doe \div 36524 - doe \div 146096) \div 365
+               doy == doe - (365 * yoe + yoe \div 4 - yoe \div 100)
+               mp == (5 * doy + 2) \div 153
+               d == doy - (153 * mp + 2) \div 5 + 1
+               m == IF mp < 10 THEN mp + 3 ELSE mp - 9
+           IN <<yoe + era * 400 + (IF m <= 2 THEN 1 ELSE 0), m, d>>
 NormI(d, s) == <<d + (s \div 86400), s % 86400>>
 
 \* BasicZoneProcessor::calcStartDayOfMonth
@@ -35,6 +45,7 @@ StartDay(y, mon, dow, dom) ==
 \* instants
 Lt(a, b) == a[1] < b[1] \/ (a[1] = b[1] /\ a[2] < b[2])
 Le(a, b) == ~Lt(b, a)
+AddS(t, n) == NormI(t[1], t[2] + n)
 
 \* abbreviations are kept in kAbbrevSize = 7 bytes: six characters survive
 Trunc(s) == IF Len(s) > 6 THEN SubSeq(s, 1, 6) ELSE s
